@@ -44,6 +44,8 @@ Inductive op :=
 | OAbandonedDial (p : nat) (closes : bool)             (* scripted: the dead p's last dial reaches S; identity arrives;
                                                           p never uses the connection, closes it or not *)
 | ORestart (p : nat)
+| OStopOld (p : nat)                                   (* real transports: Stop is called once more on an old, already
+                                                          stopped incarnation of p (Server.Close does that) *)
 | ORecvErr (c : nat) (e : ecls)                        (* scripted: Receive on connection c returns an error *)
 | ORecvMsg (c m : nat)                                 (* scripted: a message arrives on connection c *)
 | OHold (h : nat)                                      (* handler h blocks inside its next call *)
@@ -288,6 +290,9 @@ Definition exec_o (ov : option (list bool)) (x0 : xstate) (o : op) : xstate * op
           end
       | None => (x, None, true)
       end
+  | OStopOld p =>
+      (* no effect on anything the survivor can see; applies when p has a stopped incarnation *)
+      if (0 <? incn s p) || negb (listening s p) then (x, None, false) else (x, None, true)
   | ORestart p =>
       match step s (ARestart p) with
       | Some s1 => (with_st x s1, None, false)
